@@ -252,8 +252,12 @@ func c16FormatOne(c *Ctx, pool *Pool, i int, tag string, seed uint64, in []byte)
 		if r.Chance(1, 3) {
 			w.Cwd = "sub"
 		}
-		if r.Chance(1, 3) {
+		switch r.Intn(6) {
+		case 0, 1:
 			w.StdoutKind = "file" // standard output redirected to a file instead of a pipe
+		case 2:
+			w.StdoutKind = "pty" // a terminal
+			c.ev.Fire("stdout_is_a_terminal", 1)
 		}
 		o, err := c.sc.RunCLI(w)
 		if err != nil {
@@ -817,6 +821,8 @@ type compileCase struct {
 	spell   map[string]string // target -> how the directory is spelled on the command line (default: as in dirs)
 	stale   bool
 	nested  bool
+	attached bool // -fin.dsl -gout: short flags with the value attached
+	fifoIn   bool // the DSL arrives through a named pipe
 	eq       bool // --flag=value / -f=value forms
 	fileLast bool // the -f flag after the output flags
 	repeat   bool // the first output flag given twice
@@ -849,6 +855,9 @@ func (cc *compileCase) argv() []string {
 	flag := func(name, value string) []string {
 		if cc.eq {
 			return []string{name + "=" + value}
+		}
+		if cc.attached && !cc.long {
+			return []string{name + value}
 		}
 		return []string{name, value}
 	}
@@ -947,7 +956,7 @@ func c16Compile(c *Ctx, pool *Pool, i int, thorough bool) error {
 			c.ev.Count("compile_invocations_skipped_generator_panics", 1)
 			continue
 		}
-		cc := &compileCase{targets: ts, long: r.Chance(1, 2), sub: r.Chance(1, 2), abs: r.Chance(1, 3), dirs: map[string]string{}, spell: map[string]string{}, stale: r.Chance(1, 2), nested: r.Chance(1, 3), eq: r.Chance(1, 4), fileLast: r.Chance(1, 4), repeat: r.Chance(1, 8)}
+		cc := &compileCase{targets: ts, long: r.Chance(1, 2), sub: r.Chance(1, 2), abs: r.Chance(1, 3), dirs: map[string]string{}, spell: map[string]string{}, stale: r.Chance(1, 2), nested: r.Chance(1, 3), eq: r.Chance(1, 4), fileLast: r.Chance(1, 4), repeat: r.Chance(1, 8), attached: r.Chance(1, 5), fifoIn: r.Chance(1, 10)}
 		// flat layout: some or all targets share one output directory (file
 		// names of different languages do not collide, the union must appear)
 		shared := len(ts) >= 2 && r.Chance(1, 4)
@@ -1048,6 +1057,10 @@ func c16Compile(c *Ctx, pool *Pool, i int, thorough bool) error {
 			staleAge = 7200
 		}
 		disk := []DiskEntry{{Path: "in.dsl", Kind: "file", Data: []byte(text), AgeSec: dslAge}}
+		if cc.fifoIn {
+			disk[0] = DiskEntry{Path: "in.dsl", Kind: "fifo", Data: []byte(text)}
+			c.ev.Fire("input_through_named_pipe", 1)
+		}
 		disk = append(disk, unrelated...)
 		disk = append(disk, links...)
 		if cc.stale {
@@ -1071,6 +1084,11 @@ func c16Compile(c *Ctx, pool *Pool, i int, thorough bool) error {
 			c.ev.Fire("disk0_missing_dirs", 1)
 		}
 		w := &CLIWorld{Argv: cc.argv(), Disk0: disk, Sched: s0()}
+		if r.Chance(1, 8) {
+			// every write to standard output fails (full disk behind a redirected log)
+			w.StdoutKind = "devfull"
+			c.ev.Fire("stdout_write_error_ENOSPC", 1)
+		}
 		o, err := c.sc.RunCLI(w)
 		if err != nil {
 			return err
@@ -1089,13 +1107,13 @@ func c16Compile(c *Ctx, pool *Pool, i int, thorough bool) error {
 			c.ev.AddSample(map[string]any{"entry": "compile", "argv": w.Argv, "disk0_paths": diskPaths(disk), "program": text}, 6)
 		}
 		if v := checkCompile(ref, o, cc); v != nil {
-			c.candidate16Compile(i, prog, cc, disk, v)
+			c.candidate16Compile(i, prog, cc, disk, v, w.StdoutKind)
 			continue
 		}
 		// the other spelling must give the identical tree
 		cc2 := *cc
 		cc2.sub = !cc.sub
-		w2 := &CLIWorld{Argv: cc2.argv(), Disk0: disk, Sched: s0()}
+		w2 := &CLIWorld{Argv: cc2.argv(), Disk0: disk, Sched: s0(), StdoutKind: w.StdoutKind}
 		o2, err := c.sc.RunCLI(w2)
 		if err != nil {
 			return err
@@ -1103,7 +1121,7 @@ func c16Compile(c *Ctx, pool *Pool, i int, thorough bool) error {
 		c.ev.AddRecord(&o2.Rec)
 		c.ev.Count("cli_worlds", 1)
 		if !o2.TimedOut && treeSig(o, "") != treeSig(o2, "") {
-			c.candidate16Compile(i, prog, &cc2, disk, &c16Viol{"spelling", fmt.Sprintf("`%s` and `%s` leave different trees", strings.Join(cc.argv(), " "), strings.Join(cc2.argv(), " ")), nil})
+			c.candidate16Compile(i, prog, &cc2, disk, &c16Viol{"spelling", fmt.Sprintf("`%s` and `%s` leave different trees", strings.Join(cc.argv(), " "), strings.Join(cc2.argv(), " ")), nil}, "")
 		}
 	}
 	return nil
@@ -1253,7 +1271,7 @@ func tail(s string, n int) string {
 	return s
 }
 
-func (c *Ctx) candidate16Compile(caseIdx int, prog *Prog, cc *compileCase, disk []DiskEntry, v *c16Viol) {
+func (c *Ctx) candidate16Compile(caseIdx int, prog *Prog, cc *compileCase, disk []DiskEntry, v *c16Viol, stdoutKind string) {
 	c.mu.Lock()
 	c.candidates++
 	coarse := "C16|compile|" + strings.SplitN(v.class, ":", 2)[0]
@@ -1289,7 +1307,7 @@ func (c *Ctx) candidate16Compile(caseIdx int, prog *Prog, cc *compileCase, disk 
 				return nil, nil
 			}
 		}
-		w := &CLIWorld{Argv: cs.argv(), Disk0: mkDisk(p, keepStale), Sched: s0()}
+		w := &CLIWorld{Argv: cs.argv(), Disk0: mkDisk(p, keepStale), Sched: s0(), StdoutKind: stdoutKind}
 		o, err := c.sc.RunCLI(w)
 		if err != nil || o.TimedOut {
 			return nil, nil
